@@ -1250,6 +1250,10 @@ class SequenceValue(GenericValue):
                     f"Cannot assign {stringify_object(other.typ)} to"
                     f" {stringify_object(self.typ)}"
                 )
+            my_flags = [is_many for is_many, _ in self.members]
+            their_flags = [is_many for is_many, _ in other.members]
+            if my_flags.count(True) == 1 and my_flags != their_flags:
+                return self._can_assign_around_unpacked(other, can_assign, ctx)
             my_len = len(self.members)
             their_len = len(other.members)
             if my_len != their_len:
@@ -1284,6 +1288,35 @@ class SequenceValue(GenericValue):
                 bounds_maps.append(can_assign)
             return unify_bounds_maps(bounds_maps)
         return super().can_assign(other, ctx)
+
+    def _can_assign_around_unpacked(
+        self, other: "SequenceValue", bounds_map: BoundsMap, ctx: CanAssignContext
+    ) -> CanAssign:
+        """We have exactly one unpacked member: the single elements before and
+        after it must line up with single elements of the other sequence, and
+        whatever is left over must fit the unpacked member."""
+        index = [is_many for is_many, _ in self.members].index(True)
+        _, unpacked = self.members[index]
+        their_members = list(other.members)
+        pairs = []
+        for _, my_member in self.members[:index]:
+            if not their_members or their_members[0][0]:
+                return CanAssignError(f"Cannot assign {other} to {self}")
+            pairs.append((my_member, their_members.pop(0)[1]))
+        for _, my_member in reversed(self.members[index + 1 :]):
+            if not their_members or their_members[-1][0]:
+                return CanAssignError(f"Cannot assign {other} to {self}")
+            pairs.append((my_member, their_members.pop()[1]))
+        pairs += [(unpacked, their_member) for _, their_member in their_members]
+        bounds_maps = [bounds_map]
+        for my_member, their_member in pairs:
+            can_assign = my_member.can_assign(their_member, ctx)
+            if isinstance(can_assign, CanAssignError):
+                return CanAssignError(
+                    f"Cannot assign {their_member} to {my_member}", [can_assign]
+                )
+            bounds_maps.append(can_assign)
+        return unify_bounds_maps(bounds_maps)
 
     def substitute_typevars(self, typevars: TypeVarMap) -> Value:
         return SequenceValue(
